@@ -1,14 +1,19 @@
 /* C17 H-2: the bit packers of base32.c against a reference packer written from RFC 4648.
  *
- * MODE 1 (decode): a string of NSYM symbolic alphabet symbols with a '-' after every GROUP symbols (GROUP 0: none).
- *   KSI_base32Decode returns floor(5*NSYM/8) bytes; byte i = bits 8i..8i+7 of the concatenated 5-bit values
- *   (addBits).
- * MODE 2 (encode, then decode): NDATA symbolic bytes, group length GROUP.  KSI_base32Encode returns a
- *   NUL-terminated string inside its buffer; data symbol j = bits 5j..5j+4 of the data, zero padded (readNextBits),
- *   written with the RFC 4648 alphabet; a '-' follows every GROUP-th data symbol when another data symbol follows;
- *   after the data symbols come exactly as many '=' as are needed to make the number of symbols a multiple of 8
- *   (RFC 4648 padding; where the encoder puts dashes inside the padding is not specified by anything and is
- *   therefore not compared); KSI_base32Decode of that string returns exactly the NDATA bytes (decode o encode = id).
+ * MODE 1 (addBits): NSYM symbolic 5-bit values are fed to addBits exactly as KSI_base32Decode's loop does
+ *   (zeroed buffer of floor(5*len/8)+2 bytes, running bit count).  Afterwards the bit count is 5*NSYM and byte i
+ *   of the buffer = bits 8i..8i+7 of the concatenated values (most significant bit first) for every complete byte;
+ *   a negative value (the decoder's "no bits" marker) changes nothing.
+ *   (The decoder loop as a whole cannot be run on a string of symbolic characters: each character is a possible
+ *   '=' / '-' / foreign byte for symbolic execution, see h1_alphabet.c, which covers the loop's character
+ *   dispatch with one symbolic byte per string.)
+ * MODE 2 (encode): NDATA symbolic bytes, group length GROUP.  KSI_base32Encode returns a NUL-terminated string
+ *   inside its buffer; data symbol j = bits 5j..5j+4 of the data, zero padded (readNextBits), written in the
+ *   RFC 4648 alphabet; a '-' follows every GROUP-th data symbol when another data symbol follows; after the
+ *   data symbols come exactly as many '=' as are needed to make the number of symbols a multiple of 8 (RFC 4648
+ *   padding; where dashes go inside the padding is specified nowhere and is not compared).
+ *   Round trip at packer level: the alphabet values of the encoder's own output characters, fed to addBits,
+ *   reproduce exactly the NDATA bytes (decode o encode = id).
  * Lengths are concrete per instance, all data symbolic. */
 #include "verif.h"
 #include "internal.h"
@@ -16,7 +21,6 @@
 #include "ctx.h"
 #include "verif_post.h"
 #include "c17_ref.h"
-#include "c17_strlen.h"
 #include "base32.c"
 
 #ifndef MODE
@@ -30,28 +34,21 @@
 #ifndef NSYM
 #define NSYM 8
 #endif
-#define NDASH ((GROUP) > 0 ? (NSYM - 1) / (GROUP) : 0)
-#define SLEN (NSYM + NDASH)
 #define NOUT ((NSYM * 5) / 8)
 void harness(void) {
-	VERIF_ctx_init();
-	char s[SLEN + 1]; u8 val[NSYM]; unsigned k = 0;
+	u8 val[NSYM];
+	unsigned char buf[NOUT + 2];          /* as allocated by the decoder: len * 5 / 8 + 2 */
+	int bits = 0;
+	for (unsigned i = 0; i < NOUT + 2; i++) buf[i] = 0;
 	for (unsigned j = 0; j < NSYM; j++) {
 		val[j] = ND(u8, sym); ASSUME(val[j] < 32);
-		s[k++] = c17_sym_char(val[j]);
-		if (GROUP > 0 && (j + 1) % (GROUP > 0 ? GROUP : 1) == 0 && j + 1 < NSYM) s[k++] = '-';
+		addBits(buf, &bits, val[j]);
+		if (j == NSYM / 2) { addBits(buf, &bits, -1); }   /* "no bits": must not change anything */
 	}
-	s[k] = 0;
-	c17_expected_len = SLEN;
-	unsigned char *out = NULL; size_t out_len = 0;
-	int res = KSI_base32Decode(s, &out, &out_len);
-	CHECK(res == KSI_OK && out != NULL, "C17.H2 a string of alphabet symbols and dashes decodes");
-	if (res != KSI_OK || out == NULL) return;
-	CHECK(out_len == NOUT, "C17.H2 decoded length = floor(5 * symbols / 8)");
+	CHECK(bits == 5 * NSYM, "C17.H2 every symbol adds exactly five bits");
 	for (unsigned i = 0; i < NOUT; i++)
-		if (i < out_len) CHECK(out[i] == c17_stream_byte(val, i), "C17.H2 decoded byte i = bits 8i..8i+7 of the symbol stream");
-	if (val[0] == 31 && val[NSYM - 1] == 1) WITNESS_POINT("symbols decoded");
-	KSI_free(out);
+		CHECK(buf[i] == c17_stream_byte(val, i), "C17.H2 packed byte i = bits 8i..8i+7 of the symbol stream");
+	if (val[0] == 31 && val[NSYM - 1] == 1) WITNESS_POINT("symbols packed");
 }
 #else
 #ifndef NDATA
@@ -59,7 +56,6 @@ void harness(void) {
 #endif
 #define S_DATA ((8 * NDATA + 4) / 5)                 /* data symbols */
 #define S_TOTAL (((S_DATA) + 7) / 8 * 8)             /* with padding */
-#define DATA_DASH ((GROUP) > 0 ? (S_DATA - 1) / (GROUP) : 0)
 #define MAXSTR (2 * S_TOTAL + 2)
 void harness(void) {
 	VERIF_ctx_init();
@@ -72,8 +68,11 @@ void harness(void) {
 
 	/* data part: S_DATA symbols, a dash after every GROUP-th one while more data symbols follow */
 	unsigned k = 0;
+	unsigned char back[(S_DATA * 5) / 8 + 2]; int bits = 0;
+	for (unsigned i = 0; i < (S_DATA * 5) / 8 + 2; i++) back[i] = 0;
 	for (unsigned j = 0; j < S_DATA; j++) {
 		CHECK(enc[k] == c17_sym_char(c17_data_symbol(d, NDATA, j)), "C17.H2 data symbol j = bits 5j..5j+4 of the data in the RFC 4648 alphabet");
+		addBits(back, &bits, c17_sym_value((unsigned char)enc[k]));
 		k++;
 		if (GROUP > 0 && (j + 1) % (GROUP > 0 ? GROUP : 1) == 0 && j + 1 < S_DATA) {
 			CHECK(enc[k] == '-', "C17.H2 a dash follows every full group of data symbols");
@@ -81,28 +80,22 @@ void harness(void) {
 		}
 	}
 	/* padding part: '=' up to a multiple of 8 symbols, dashes anywhere, then NUL */
-	unsigned pads = 0, extra = 0; int ended = 0;
+	unsigned pads = 0; int ended = 0;
 	for (unsigned q = 0; q < MAXSTR; q++) {
 		if (!ended) {
 			char c = enc[k + q];
-			if (c == 0) { ended = 1; extra = q; }
+			if (c == 0) ended = 1;
 			else if (c == '=') pads++;
 			else CHECK(c == '-', "C17.H2 after the data symbols only '=' and '-' follow");
 		}
 	}
 	CHECK(ended, "C17.H2 encoded string is terminated");
 	CHECK(pads == S_TOTAL - S_DATA, "C17.H2 padded with '=' to a multiple of 8 symbols");
-	if (!ended) return;
 
-	/* decode o encode = id */
-	c17_expected_len = k + extra;
-	unsigned char *back = NULL; size_t back_len = 0;
-	res = KSI_base32Decode(enc, &back, &back_len);
-	CHECK(res == KSI_OK && back != NULL, "C17.H2 the encoder's output decodes");
-	if (res != KSI_OK || back == NULL) return;
-	CHECK(back_len == NDATA, "C17.H2 decode(encode(d)) has the length of d");
-	for (unsigned i = 0; i < NDATA; i++) if (i < back_len) CHECK(back[i] == d[i], "C17.H2 decode(encode(d)) = d");
-	if (d[0] == 0xff && d[NDATA - 1] == 0x01) WITNESS_POINT("data encoded and decoded");
-	KSI_free(back); KSI_free(enc); verif_buf_free(d, NDATA);
+	/* decode o encode = id (packer level) */
+	CHECK(bits / 8 == NDATA, "C17.H2 the symbols of encode(d) carry exactly the bytes of d");
+	for (unsigned i = 0; i < NDATA; i++) CHECK(back[i] == d[i], "C17.H2 unpacking the encoder's symbols returns d");
+	if (d[0] == 0xff && d[NDATA - 1] == 0x01) WITNESS_POINT("data encoded and unpacked");
+	KSI_free(enc); verif_buf_free(d, NDATA);
 }
 #endif
